@@ -1,3 +1,11 @@
 // Hook H7 (ipa-core/src/protocol/ipa_prf/mod.rs): `malicious_security` is a private module; this
 // re-exports its public items to the harness root.
 pub(crate) use super::malicious_security::{lagrange, prover, verifier};
+
+// proof / diff array types (private aliases in validation_protocol) for the C09 encoding check
+pub(crate) type ProofDiffAlias = [crate::ff::Fp61BitPrime; crate::protocol::context::dzkp_validator::MAX_PROOF_RECURSION + 1];
+pub(crate) type ProofArrayAlias = Box<
+    [crate::ff::Fp61BitPrime;
+        super::FirstProofGenerator::PROOF_LENGTH
+            + (crate::protocol::context::dzkp_validator::MAX_PROOF_RECURSION - 1) * super::CompressedProofGenerator::PROOF_LENGTH],
+>;
